@@ -109,3 +109,43 @@ func main() {
 	h()
 	fmt.Println(sl, len(sl))
 }
+
+type Pt2 struct{ X, Y int }
+
+func init() {
+	m := map[string]int{"key": 1}
+	for k := range m {
+		s := "x"
+		t := s + "y"
+		fmt.Println(k, s, t)
+	}
+	for k, v := range m {
+		s := "x"
+		fmt.Println(k, v, s)
+	}
+	mf := map[float64]string{1.5: "a"}
+	for k, v := range mf {
+		f := 2.5
+		s := "s"
+		fmt.Println(k, v, f, s)
+	}
+	mp := map[Pt2]bool{{1, 2}: true}
+	for k := range mp {
+		q := Pt2{7, 8}
+		fmt.Println(k.X, q.X)
+	}
+	ch := make(chan Pt2, 1)
+	ch <- Pt2{1, 2}
+	close(ch)
+	for r := range ch {
+		r.X = 44
+		fmt.Println(r.X, cap(ch))
+	}
+	cs := make(chan string, 1)
+	cs <- "a"
+	close(cs)
+	for s := range cs {
+		u := "u"
+		fmt.Println(s, u)
+	}
+}
